@@ -10,6 +10,7 @@ ASSUMPTIONS = [
     "PBKDF2 iteration count c >= 1 (interface precondition); messages >= 2^61 bytes are out of reach",
     "trusted: clang 14 + ASan/UBSan, rapidcheck, OpenSSL libcrypto",
 ]
+SHARD_TIMEOUT = 3 * 3600
 SUBS = [
     dict(name="sha256", quick=dict(cases=30000, shards=2), thorough=dict(cases=200000, shards=2)),
     dict(name="sha1", quick=dict(cases=30000, shards=2), thorough=dict(cases=200000, shards=2)),
@@ -21,6 +22,8 @@ SUBS = [
     dict(name="giant-sha256", quick=dict(cases=1, shards=1), thorough=dict(cases=2, shards=2)),
     dict(name="giant-sha1", quick=dict(cases=1, shards=1), thorough=dict(cases=2, shards=2)),
     dict(name="giant-md5", quick=dict(cases=1, shards=1), thorough=dict(cases=2, shards=2)),
+    dict(name="giant-pbkdf2", quick=dict(cases=1, shards=1), thorough=dict(cases=1, shards=3)),
+    dict(name="giant-iter", thorough=dict(cases=1, shards=1)),
     dict(name="giant-crc32c", quick=dict(cases=1, shards=1), thorough=dict(cases=3, shards=3)),
 ]
 LIB = {"sha256.c", "sha256_shani.c", "sha256_sse2.c", "sha1.c", "md5.c", "crc32c.c", "crc32c_sse42.c",
@@ -32,7 +35,7 @@ def build(B):
     lib = B.build_lib("asan", only=LIB)
     shim = B.compile_c(os.path.join(HERE, "shim.c"))
     core = B.compile_cxx(os.path.join(HERE, "core.cpp"))
-    return B.link(os.path.join(B.BUILD, "bin", "C01"), [core, shim] + list(lib.values()), libs=["-lrapidcheck", "-lcrypto"])
+    return B.link(os.path.join(B.BUILD, "bin", "C01"), [core, shim] + list(lib.values()), libs=["-lrapidcheck", "-lcrypto", "-lpthread"])
 
 MANIFEST = dict(
     engine="rapidcheck",
